@@ -66,7 +66,7 @@ func (g *Gen) buildQuery(o *Obl, extraAssume string, wantModel bool, dropQuant b
 		sb.WriteString("\n")
 	}
 	for _, as := range g.assumes {
-		if as.seq < o.seq {
+		if as.seq < o.seq && (o.cutSeq == 0 || as.seq < o.entrySeq || as.seq >= o.cutSeq) {
 			if dropQuant && strings.Contains(as.term, "(forall ") {
 				continue
 			}
